@@ -9,10 +9,52 @@ from .lutmodel import Shape, Kind, sym_words, const_words, bits_of_table, usize,
 from .report import PROVED, REFUTED, UNDECIDED
 
 
+def _solve_components(ones, zeros):
+    """ones: bit functions that must be 1, zeros: must be 0.  Independent components are
+    solved separately by enumeration.  -> assignment dict, None (unsat) or 'big'"""
+    cons = [(f, 1) for f in ones] + [(f, 0) for f in zeros]
+    parent = {}
+
+    def find(x):
+        while parent.get(x, x) != x:
+            parent[x] = parent.get(parent[x], parent[x])
+            x = parent[x]
+        return x
+
+    for f, _ in cons:
+        at = f[0]
+        if not at:
+            if f[1] != _:
+                return None
+            continue
+        r = find(at[0])
+        for a in at[1:]:
+            parent[find(a)] = r
+    groups = {}
+    for f, want in cons:
+        if f[0]:
+            groups.setdefault(find(f[0][0]), []).append((f, want))
+    asg = {}
+    for g in groups.values():
+        atoms = sorted({a for f, _ in g for a in f[0]})
+        if len(atoms) > 18:
+            return "big"
+        found = False
+        for vals in itertools.product((0, 1), repeat=len(atoms)):
+            cand = dict(zip(atoms, vals))
+            if all(B.eval_bit(f, cand) == want for f, want in g):
+                asg.update(cand)
+                found = True
+                break
+        if not found:
+            return None
+    return asg
+
+
 def pc_status(pc, extra=()):
     """satisfiability of a path condition (conjunction of Boolean abstract values).
     -> ('unsat', None) | ('sat', assignment) | ('unknown', reason)"""
-    fns = []      # exact bit functions that must be 1
+    ones, zeros, anys = [], [], []
     unknown = None
     for c in tuple(pc) + tuple(extra):
         if isinstance(c, W):
@@ -24,42 +66,63 @@ def pc_status(pc, extra=()):
             if b is None:
                 unknown = "top condition"
                 continue
-            fns.append(("bit", b))
+            ones.append(b)
         elif isinstance(c, CS):
             if c.has_top():
                 unknown = "clause set with top"
                 continue
-            fns.append(("cs", c))
+            if c.neg:
+                anys.append(sorted(c.clauses))
+            else:
+                zeros.extend(c.clauses)
         else:
             unknown = "non-boolean condition"
-    atoms = set()
-    for k, f in fns:
-        if k == "bit":
-            atoms.update(f[0])
-        else:
-            for cl in f.clauses:
-                atoms.update(cl[0])
-    atoms = sorted(atoms)
-    if len(atoms) > 20:
-        return "unknown", "too many atoms (%d)" % len(atoms)
-    for vals in itertools.product((0, 1), repeat=len(atoms)):
-        asg = dict(zip(atoms, vals))
-        ok = True
-        for k, f in fns:
-            if k == "bit":
-                if not B.eval_bit(f, asg):
-                    ok = False
-                    break
-            else:
-                allzero = all(not B.eval_bit(cl, asg) for cl in f.clauses)
-                if allzero == f.neg:
-                    ok = False
-                    break
-        if ok:
-            if unknown:
-                return "unknown", unknown
-            return "sat", {B.ATOMS.name(a): v for a, v in asg.items()}
-    return "unsat", None
+    base = _solve_components(ones, zeros)
+    if base is None:
+        return "unsat", None
+    if base == "big":
+        return "unknown", "component too large"
+    # disjunctive conditions ("some clause is 1"): greedy, one clause per condition; only the
+    # constraints sharing atoms with the candidate clause are re-solved
+    chosen = []
+    for idx, clauses in enumerate(anys):
+        found = False
+        inconclusive = False
+        cur_ones, cur_zeros = ones + chosen, zeros
+        for c in clauses[:4096]:
+            at = set(c[0])
+            rel_ones, rel_zeros = [], []
+            changed = True
+            while changed:
+                changed = False
+                for f in cur_ones:
+                    if f not in rel_ones and at & set(f[0]):
+                        rel_ones.append(f)
+                        at |= set(f[0])
+                        changed = True
+                for f in cur_zeros:
+                    if f not in rel_zeros and at & set(f[0]):
+                        rel_zeros.append(f)
+                        at |= set(f[0])
+                        changed = True
+            r = _solve_components(rel_ones + [c], rel_zeros)
+            if r == "big":
+                inconclusive = True
+                continue
+            if r is not None:
+                chosen.append(c)
+                found = True
+                break
+        if not found:
+            if inconclusive or idx > 0 or len(clauses) > 4096:
+                return "unknown", "disjunctive condition not resolved greedily"
+            return "unsat", None
+    r = _solve_components(ones + chosen, zeros)
+    if r is None or r == "big":
+        return "unknown", "greedy choice inconsistent"
+    if unknown:
+        return "unknown", unknown
+    return "sat", {B.ATOMS.name(a): v for a, v in r.items()}
 
 
 def compare_bits(got, exp, pc=()):
